@@ -269,18 +269,27 @@ theorem pingDatagram_eq (rs : Nat) (h : rs < 256) : pingDatagram rs = .ok (pingB
   simp [pingDatagram, asfPack, structPack, asfHeader, packItems, intBytes, Gen.RmcpFormats.asfIana, pingType, pingTag,
     rmcpPack_ok, classAsf, h, beBytes, leBytes, Outcome.bind, pingBytes]
 
-/-- what `AsfPong.check_data` looks at, in the model's terms -/
-def pongContentOk (data : List Nat) : Prop :=
-  ¬ (beVal (data.take 4) = 4542 ∧ beVal ((data.drop 4).take 4) ≠ 0) ∧ (data.drop 9).headD 0 = 0
+/-- what `AsfPong.check_data` looks at, in the model's terms (the interactions clause exists as
+shipped only) -/
+def pongContentOk (v : PongCheck) (data : List Nat) : Prop :=
+  ¬ (beVal (data.take 4) = 4542 ∧ beVal ((data.drop 4).take 4) ≠ 0) ∧
+    (v = .asShipped → (data.drop 9).headD 0 = 0)
 
-theorem pongUnpack_short (sdu : List Nat) (h : sdu.length < 8) : pongUnpack sdu = .pyError "error" := by
+/-- the attributes `AsfPong.unpack` leaves on the object -/
+def pongFieldsOf (n3 n2 n1 n0 ty tag : Nat) (data : List Nat) : PongFields :=
+  ⟨beVal [n3, n2, n1, n0], ty, tag, beVal (data.take 4), beVal ((data.drop 4).take 4),
+    (data.drop 8).headD 0, (data.drop 9).headD 0⟩
+
+theorem pongUnpackV_short (v : PongCheck) (sdu : List Nat) (h : sdu.length < 8) :
+    pongUnpackV v sdu = .pyError "error" := by
   have : ¬ (min 8 sdu.length = 8) := by omega
-  simp [pongUnpack, structUnpack, calcsize_asf, this, Outcome.bind]
+  simp [pongUnpackV, structUnpack, calcsize_asf, this, Outcome.bind]
 
-theorem pongUnpack_cons (n3 n2 n1 n0 ty tag rs dl : Nat) (data : List Nat) :
-    pongUnpack (n3 :: n2 :: n1 :: n0 :: ty :: tag :: rs :: dl :: data) = .ok () ↔
-      ty = 0x40 ∧ dl = 16 ∧ data.length = 16 ∧ pongContentOk data := by
-  simp only [pongUnpack, structUnpack, calcsize_asf, calcsize_pong]
+theorem pongUnpackV_cons (v : PongCheck) (n3 n2 n1 n0 ty tag rs dl : Nat) (data : List Nat) (f : PongFields) :
+    pongUnpackV v (n3 :: n2 :: n1 :: n0 :: ty :: tag :: rs :: dl :: data) = .ok f ↔
+      ty = 0x40 ∧ dl = 16 ∧ data.length = 16 ∧ pongContentOk v data ∧
+        f = pongFieldsOf n3 n2 n1 n0 ty tag data := by
+  simp only [pongUnpackV, structUnpack, calcsize_asf, calcsize_pong]
   simp only [asfHeader, unpackItems, List.length_cons, List.take, List.drop]
   by_cases hlen : data.length = dl
   · subst hlen
@@ -288,9 +297,10 @@ theorem pongUnpack_cons (n3 n2 n1 n0 ty tag rs dl : Nat) (data : List Nat) :
     by_cases hty : ty = 64
     · by_cases h16 : data.length = 16
       · have ht16 : List.take 16 data = data := by rw [← h16]; exact List.take_length
-        simp [Outcome.bind, asfPong, Gen.RmcpFormats.asfIana, pongData, unpackItems, ht, hty, h16, pongContentOk, ht16]
+        simp [Outcome.bind, asfPong, Gen.RmcpFormats.asfIana, pongData, unpackItems, ht, hty, h16, pongContentOk, ht16,
+          pongFieldsOf]
         by_cases hA : beVal (List.take 4 data) = 4542 <;> by_cases hB : beVal (List.take 4 (List.drop 4 data)) = 0 <;>
-          by_cases hC : data[9] = 0 <;> simp [hA, hB, hC]
+          by_cases hC : data[9] = 0 <;> cases v <;> simp [hA, hB, hC, eq_comm]
       · by_cases h0 : data.length = 0
         · simp [Outcome.bind, asfPong, ht, hty, h16, h0]
         · simp [Outcome.bind, asfPong, ht, hty, h16, h0]
@@ -299,5 +309,63 @@ theorem pongUnpack_cons (n3 n2 n1 n0 ty tag rs dl : Nat) (data : List Nat) :
     rcases this with h | h <;> simp [Outcome.bind, h]
     all_goals (intro _ h1 h2; omega)
 
+theorem pongUnpackV_agree (n3 n2 n1 n0 ty tag rs dl : Nat) (data : List Nat) (h : (data.drop 9).headD 0 = 0) :
+    pongUnpackV .asShipped (n3 :: n2 :: n1 :: n0 :: ty :: tag :: rs :: dl :: data) =
+      pongUnpackV .intended (n3 :: n2 :: n1 :: n0 :: ty :: tag :: rs :: dl :: data) := by
+  simp only [pongUnpackV, structUnpack, calcsize_asf, calcsize_pong]
+  simp only [asfHeader, unpackItems, List.length_cons, List.take, List.drop]
+  by_cases hlen : data.length = dl
+  · subst hlen
+    have ht : List.take data.length data = data := List.take_length
+    by_cases hty : ty = 64
+    · by_cases h16 : data.length = 16
+      · have ht16 : List.take 16 data = data := by rw [← h16]; exact List.take_length
+        have h9 : data[9]?.getD 0 = 0 := by simpa [List.head?_drop] using h
+        have h9' : data[9] = 0 := by
+          have : data[9]? = some data[9] := List.getElem?_eq_getElem (by omega)
+          rw [this] at h9; simpa using h9
+        simp [Outcome.bind, asfPong, pongData, unpackItems, ht, hty, h16, ht16, h9']
+      · by_cases h0 : data.length = 0
+        · simp [Outcome.bind, asfPong, ht, hty, h16, h0]
+        · simp [Outcome.bind, asfPong, ht, hty, h16, h0]
+    · simp [Outcome.bind, asfPong, ht, hty]
+  · have : data.length + 1 + 1 + 1 + 1 + 1 + 1 + 1 + 1 < 8 + dl ∨ data.length + 1 + 1 + 1 + 1 + 1 + 1 + 1 + 1 > 8 + dl := by omega
+    rcases this with h | h <;> simp [Outcome.bind, h]
+
+theorem receivePongV_cons (v : PongCheck) (a0 a1 a2 a3 : Nat) (sdu : List Nat) :
+    receivePongV v (a0 :: a1 :: a2 :: a3 :: sdu) =
+      if a0 ≠ 6 then .decodingError else if a3 ≠ 6 then .decodingError else pongUnpackV v sdu := by
+  simp only [receivePongV, rmcpUnpack_cons]
+  by_cases h0 : a0 = 6 <;> by_cases h3 : a3 = 6 <;> simp [h0, h3, Outcome.bind, classAsf]
+
+theorem receivePong_ok_iff (d : List Nat) : receivePong d = .ok () ↔ ∃ f, receivePongV .intended d = .ok f := by
+  unfold receivePong
+  cases h : receivePongV .intended d <;> simp [Outcome.bind]
+
+/-! ### big-endian values of the specification's `be32` -/
+
+theorem beVal_be32 (v : Nat) (h : v < 4294967296) : beVal (be32 v) = v := by
+  simp [beVal, be32, leVal]; omega
+
+theorem u32le_be32 (v : Nat) (h : v < 4294967296) :
+    u32le (v % 256) (v / 256 % 256) (v / 65536 % 256) (v / 16777216 % 256) = v := by
+  unfold u32le; omega
+
+/-- the data block of a pong datagram -/
+def pongData16 (p : Pong) : List Nat :=
+  be32 p.oemIana ++ be32 p.oemDefined ++ [p.entities, p.interactions, 0, 0, 0, 0, 0, 0]
+
+theorem parseAsf_pongDatagram (p : Pong) :
+    parseAsf (pongDatagram p) = some ⟨6, 6, 4542, 0x40, p.tag, 16, pongData16 p⟩ := by
+  simp [pongDatagram, parseAsf, be32, Spec.Lan.asfIana, u32le, pongData16]
+
+theorem pongData16_fields (p : Pong) (h2 : p.oemIana < 4294967296) (h3 : p.oemDefined < 4294967296) :
+    (pongData16 p).length = 16 ∧ beVal ((pongData16 p).take 4) = p.oemIana ∧
+    beVal (((pongData16 p).drop 4).take 4) = p.oemDefined ∧
+    ((pongData16 p).drop 8).headD 0 = p.entities ∧ ((pongData16 p).drop 9).headD 0 = p.interactions := by
+  have e1 := beVal_be32 p.oemIana h2
+  have e2 := beVal_be32 p.oemDefined h3
+  simp only [be32] at e1 e2
+  simp [pongData16, be32, e1, e2]
 
 end PyIpmi.RmcpWire
